@@ -24,6 +24,10 @@ S  statements: every skeleton of <= N statement nodes (assign, tuple pattern, au
    6 iterables, 5 contexts incl. REAL, a global, a constructor with arguments computed
    from 1/3 and from a run-time length), a probe `ps[j] = 1 / 3` after each compound
    statement x input tuples x caller context in {absent, a small RTZ float, REAL}.
+X  context expressions: 11 spellings of a `with` expression (literal, positional, keyword-only,
+   mixed, nested arithmetic, non-call if-expressions; arguments computed at run time and inexact
+   under a 3-bit context) x 4 narrow ambients (caller context, enclosing `with`, declared function
+   context, callee reached from inside a `with`).
 D  call graphs f -> g -> h: every choice of declared context (none / a float / REAL) for
    each of the three functions x every choice of `with` block (none / 2 contexts) around
    each of the two call sites (243 programs), h writing a list f reads afterwards.
@@ -270,7 +274,7 @@ class Check(BaseCheck):
 
     # ---- shards -----------------------------------------------------------------
     def shards(self):
-        sh = [('T', i, 8) for i in range(8)] + [('D', i, 4) for i in range(4)]
+        sh = [('T', i, 8) for i in range(8)] + [('D', i, 4) for i in range(4)] + [('X', 0, 1)]
         ne = 24 if self.quick else 64
         sh += [('E', i, ne) for i in range(ne)]
         for n in self.sizes:
@@ -293,6 +297,8 @@ class Check(BaseCheck):
             self.run_exprs(r, shard[1], shard[2])
         elif shard[0] == 'D':
             self.run_callgraphs(r, shard[1], shard[2])
+        elif shard[0] == 'X':
+            self.run_ctxexprs(r)
         else:
             self.run_stmts(r, *shard[1:])
         return r
@@ -427,6 +433,25 @@ class Check(BaseCheck):
                         self.one(r, 'D', label, src, real, prog, fname, text, inp, ctext)
         if progs:
             r.sample({'part': 'D', 'example': progs[-1][2]})
+
+    # ---- X: context expressions (positional / keyword / mixed / non-call) under narrow ambients ----
+    def run_ctxexprs(self, r):
+        progs = list(G.ctxexprs())
+        # p = len(us) + 1 = 4 for the three-element lists; u / 256 is exact everywhere but under the narrow contexts
+        inputs = [['1', '1', ['1', '2', '3']], ['1/3', '2', ['1', '1/3', '2']], ['3', '1/10', ['0', '-1', '3']],
+                  ['1', '1', ['1']], ['-1', '3', []], ['nan', '1', ['1', '2', '3']]]
+        ctxs = STMT_CTXS + ['fp.MPFloatContext(3)']
+        for b in range(0, len(progs), 11):
+            chunk = progs[b:b + 11]
+            real, prog, src = self.load_batch(r, G.HELPERS, [(f, t) for f, _, t in chunk])
+            for fname, label, text in chunk:
+                if fname not in real:
+                    continue
+                r.count('programs')
+                for inp in inputs:
+                    for ctext in ctxs:
+                        self.one(r, 'X', label, src, real, prog, fname, text, inp, ctext)
+        r.sample({'part': 'X', 'example': progs[2][2]})
 
     # ---- replay -----------------------------------------------------------------
     def replay(self, case):
